@@ -68,7 +68,7 @@ func NewAux(fd *slip.FuncDoc) *Aux {
 		dk  []byte
 	)
 	for _, da := range fd.Args {
-		if da.Name[0] == '&' {
+		if 0 < len(da.Name) && da.Name[0] == '&' {
 			break
 		}
 		dk = append(dk, 't', '|')
@@ -300,9 +300,14 @@ func (aux *Aux) buildCacheMeth(args slip.List) *slip.Method {
 
 func (aux *Aux) collectMethods(meth *slip.Method, key []string, ki int, args slip.List) {
 	var hier []slip.Symbol
-	if args[ki] == nil {
+	switch {
+	case len(key) == 0:
+		// No required parameters, the one method is kept under the empty key.
+		key = []string{""}
+		hier = []slip.Symbol{""}
+	case args[ki] == nil:
 		hier = []slip.Symbol{slip.TrueSymbol}
-	} else {
+	default:
 		hier = args[ki].Hierarchy()
 	}
 	if len(key) == ki+1 { // last one
@@ -352,9 +357,14 @@ func (aux *Aux) compMethList(args slip.List) slip.List {
 
 func (aux *Aux) compMeths(mc *methComp, key []string, ki int, args slip.List) {
 	var hier []slip.Symbol
-	if args[ki] == nil {
+	switch {
+	case len(key) == 0:
+		// No required parameters, the one method is kept under the empty key.
+		key = []string{""}
+		hier = []slip.Symbol{""}
+	case args[ki] == nil:
 		hier = []slip.Symbol{slip.TrueSymbol}
-	} else {
+	default:
 		hier = args[ki].Hierarchy()
 	}
 	if len(key) == ki+1 { // last one
